@@ -126,6 +126,7 @@ def run(ctx):
             elif effs:
                 res.bad('InstrSeq/%s/spurious' % tag, 'a Simple sequence type reports operands')
     check_drivers(F, res)
+    check_driver_worlds(F, res)
     check_used_visitor(F, res)
     res.exhaustive = True
     return res
@@ -289,6 +290,60 @@ def check_drivers(F, res):
             else:
                 res.bad('driver/%s/first-entry-guard' % d, 'start_instr_seq and the sequence-level visit must run only on first '
                         'entry of a sequence (index == 0), otherwise resumed sequences are reported again')
+
+
+def check_driver_worlds(F, res):
+    """every generic iteration of a driver issues its per-sequence and per-instruction events, whatever the
+    sequence or the instruction looks like (no condition other than `first entry` may suppress an event)"""
+    nop = Policy(effects=lambda p: (not p.startswith('std::') and not p.startswith('log::')) or 'Vec::push' in p, inline=lambda p: False)
+    for drv, sfx in (('ir::traversals::dfs_in_order', ''), ('ir::traversals::dfs_pre_order_mut', '_mut')):
+        d = drv.split('::')[-1]
+        try:
+            ws = Evaluator(F, nop).run_fn(drv, [sym('visitor'), sym('func'), sym('start')])
+        except EvalError as e:
+            res.error('%s not analysable: %s' % (drv, e))
+            continue
+        bad = None
+        n = 0
+        for w in ws:
+            if w.outcome != 'return':
+                bad = 'a path of %s ends in %s' % (d, w.outcome)
+                continue
+            var = [v[2] for k, v in w.assumptions if isinstance(v, tuple) and v and v[0] == 'ctor' and v[1] == 'ir::Instr']
+            atoms = [(show(k[1]), v) for k, v in w.assumptions if isinstance(k, tuple) and k[0] == 'atom']
+            first = [v for t, v in atoms if t.endswith('Eq 0)') and ('.1' in t or 'index' in t)]
+            others = [(t, v) for t, v in atoms if not (t.endswith('Eq 0)') and ('.1' in t or 'index' in t))]
+            calls = [(e['callee'].split('::')[-1], len(e['loops']), e) for e in w.trace if e['kind'] == 'call']
+            cnt = lambda name, depth: sum(1 for c, dp, e in calls if c == name and dp == depth)
+            seqvisit = sum(1 for c, dp, e in calls if c == 'visit' + sfx and dp == 1)
+            cond = (' when ' + '; '.join('%s=%s' % o for o in others)[:160]) if others else ''
+            if cnt('visit_instr' + sfx, 2) != 1 or cnt('visit' + sfx, 2) != 1:
+                if others or var:
+                    bad = '%s does not report every instruction and its operands exactly once%s' % (d, cond)
+                    continue
+            owner = bool(var) and var[0] in OWNERS
+            if sfx:
+                if cnt('start_instr_seq_mut', 1) != 1 or seqvisit != 1 or cnt('end_instr_seq_mut', 1) != 1:
+                    bad = '%s skips the start/end events or the sequence-level operands of a sequence%s' % (d, cond)
+                    continue
+            else:
+                want_first = 1 if (first and first[0]) else 0
+                if cnt('start_instr_seq', 1) != want_first or seqvisit != want_first:
+                    bad = '%s must issue start_instr_seq and the sequence-level visit exactly on first entry of a sequence%s' % (d, cond)
+                    continue
+                want_end = 0 if owner else 1
+                if cnt('end_instr_seq', 1) != want_end:
+                    bad = '%s issues end_instr_seq %d time(s) for a sequence whose current instruction is %s%s' % (
+                        d, cnt('end_instr_seq', 1), var[0] if var else '?', cond)
+                    continue
+            n += 1
+        if bad:
+            res.bad('driver/%s/events-unconditional' % d, bad)
+        elif n:
+            res.ok('driver/%s/events-unconditional' % d, {'driver': d, 'worlds': n,
+                                                          'rule': 'per-sequence and per-instruction events in every world'})
+        else:
+            res.error('%s: no analysable world' % drv)
 
 
 def show_node(n):
